@@ -808,7 +808,9 @@ namespace gch
     using pointer           = typename std::iterator_traits<Pointer>::pointer;
     using reference         = typename std::iterator_traits<Pointer>::reference;
     using iterator_category = typename std::iterator_traits<Pointer>::iterator_category;
-#ifdef GCH_LIB_CONCEPTS
+#if defined (__cpp_lib_concepts) && __cpp_lib_concepts >= 202002L
+    // Note: This does not depend on GCH_DISABLE_CONCEPTS because it changes which
+    //       programs are well-formed, not just the diagnostics.
     using iterator_concept  = std::contiguous_iterator_tag;
 #endif
 
